@@ -4,6 +4,7 @@ rejection")."""
 from __future__ import annotations
 
 import struct
+from fractions import Fraction
 from typing import Any, Optional
 
 from hypothesis import strategies as st
@@ -118,6 +119,9 @@ class G:
             if i < 0:
                 self.features.add("negative")
             return refcodec.i2p(dop, i)
+        if bt in ("A_FLOAT32", "A_FLOAT64") and c["c"] == "LINEAR":
+            x = Fraction(self.d(st.integers(4 * c["lo"], 4 * c["hi"])), 4)     # exact in binary32
+            return float((c["n0"] + c["n1"] * x) / c["d"])
         if bt == "A_FLOAT32":
             x = self.d(st.floats(width=32, allow_nan=False, allow_infinity=False))
             return x
@@ -128,10 +132,19 @@ class G:
     def float_dop(self) -> dict:
         bt = self.pick(["A_FLOAT32", "A_FLOAT64"])
         self.features.add(bt)
+        compu, pt = {"c": "IDENTICAL"}, bt
+        if self.opts.get("float_linear", True) and self.chance(35):
+            # a float-coded value scaled by a LINEAR method whose scale has (float typed) limits
+            compu = {"c": "LINEAR", "n0": self.pick([0, 1, -5]), "n1": self.pick([1, 2, -1]), "d": self.pick([1, 2]),
+                     "lo": self.pick([0, 1, 2]), "hi": self.pick([3, 100, 255])}
+            if compu["n1"] < 0:
+                compu["lo"] = max(compu["lo"], 1)     # (no signed zeroes: -1 * 0.0 is -0.0, equal but not bit-identical)
+            pt = "A_FLOAT64"
+            self.features.add("compu:LINEAR-float-coded")
         return {"k": "simple", "id": self.nid("dop"),
                 "dct": {"t": "std", "bt": bt, "bl": 32 if bt == "A_FLOAT32" else 64, "enc": None,
                         "hl": self.pick([None, True, False])},
-                "compu": {"c": "IDENTICAL"}, "pt": bt}
+                "compu": compu, "pt": pt}
 
     def str_params(self):
         bt = self.pick(["A_ASCIISTRING", "A_UTF8STRING", "A_UNICODE2STRING"])
